@@ -5,6 +5,7 @@
          the real ``_dispatch_log_or_error`` under a *symbolic op script*
          {log, open writer, close writer, process turn}: every message reaches the callback exactly
          once, in emission order, before the data batch it precedes, level/text/extras preserved.
+         Replayed with genuine Arrow IPC stream writers and the real client reader.
 (a') xh: one message with symbolic level / text / extra key+value through
          ``OutputCollector.client_log`` -> ``Message.add_to_metadata`` -> ``_dispatch_log_or_error``
          (json = transparent JSON-value stub, metadata container = transparent mapping so the
@@ -56,7 +57,9 @@ BOUNDS = (
 OUTSIDE = (
     "Arrow transport of the metadata (only exercised concretely in (a) and in the replays); unary/stream dispatch sites that decide *when* the sink is flushed "
     "(the script models their protocol: flush on open, reset on close, data after flush); user extras named server_id/request_id, which the framework overwrites by design; "
-    "text containing lone surrogates (not encodable: refused at emission); on_log callbacks that raise; JSON numbers other than small ints (floats, big ints); object keys outside the alphabet."
+    "text containing lone surrogates (not encodable: refused at emission); on_log callbacks that raise; JSON numbers other than small ints (floats, big ints); object keys outside the alphabet; "
+    "fields the framework adds to a delivered message on its own (server_id, request_id, ...): 'extra fields preserved' is judged as every emitted field arriving unchanged; "
+    "identity of the delivered batch object (batches are compared by content)."
 )
 ASSUMPTIONS = [
     "json.loads in (b) is a contract stub: returns the JSON value the harness chose, or raises JSONDecodeError / RecursionError; the text is not parsed",
@@ -98,99 +101,185 @@ class _RecWriter:
         self.wid = wid
         self.closed = False
 
-    def write_batch(self, batch, custom_metadata=None):  # type: ignore[no-untyped-def]
+    def write_batch(self, batch, custom_metadata=None, *a, **k):  # type: ignore[no-untyped-def]
         if self.closed:
-            raise HarnessModelError("write to a closed IPC writer")
+            raise pa.ArrowInvalid("Destination already closed")  # what the real writer answers
         self._wire.items.append((self.wid, batch, custom_metadata))
+
+    def close(self) -> None:
+        self.closed = True
+
+    def __getattr__(self, name: str):  # pragma: no cover
+        raise HarnessModelError("ipc writer stub touched through " + name)
 
 
 def _msg(i: int, via: str) -> Message:
     return Message(_LEVELS[i % 5], "m-%d" % i, k="v-%d" % i, via=via)
 
 
-def _sink_script(n: int, ops: tuple) -> bool:
-    w = _Wire()
+class _RealWire:
+    """The same, with genuine Arrow IPC stream writers (one in-memory stream per writer): replay only."""
+
+    def __init__(self) -> None:
+        self.bufs: list = []
+
+    def new_writer(self):  # type: ignore[no-untyped-def]
+        buf = BytesIO()
+        self.bufs.append(buf)
+        return ipc.new_stream(buf, _SCHEMA)
+
+
+def _repo_call(fn, *a, **k):  # type: ignore[no-untyped-def]
+    """Call repository code from the script driver.  A call the repository's current signature does
+    not even accept is the harness being out of date (no verdict), not a failing log delivery."""
+    import inspect
+
+    try:
+        inspect.signature(fn).bind(*a, **k)
+    except TypeError as e:
+        raise HarnessModelError("script driver out of date for %s: %s" % (getattr(fn, "__qualname__", fn), e)) from None
+    except ValueError:
+        pass
+    return fn(*a, **k)
+
+
+def _direct_call(fn, *a, **k):  # type: ignore[no-untyped-def]
+    return fn(*a, **k)
+
+
+def _drive_script(n: int, ops: tuple, w, call=_direct_call) -> list:  # type: ignore[no-untyped-def]
+    """Run the op script against the real sink / collector, writing through the writers of ``w``.
+    Returns what was emitted: ("log", Message) | ("data", i), in emission order."""
     sink = wire._ClientLogSink(server_id="srv")
     cur = None
-    expected: list = []  # ("log", Message) | ("data", i) in the order the client must see them
-    try:
-        for i in range(n):
-            op = ops[i]
-            if op == _LOG:
-                m = _msg(i, "sink")
-                sink(m)
-                expected.append(("log", m))
-            elif op == _OPEN:
-                if cur is not None:
-                    cur.closed = True
-                    sink.reset()
-                cur = w.new_writer()
-                sink.flush_contents(cur, _SCHEMA)  # type: ignore[arg-type]
-            elif op == _CLOSE:
-                if cur is not None:
-                    cur.closed = True
-                    cur = None
-                    sink.reset()
-            else:
-                # one process() turn: two logs through the collector, then the data batch, flushed
-                if cur is None:
-                    cur = w.new_writer()
-                    sink.flush_contents(cur, _SCHEMA)  # type: ignore[arg-type]
-                out = ty.OutputCollector(_SCHEMA, server_id="srv")
-                m = _msg(i, "collector")
-                m2 = _msg(i, "collector-2")
-                out.emit_client_log_message(m)
-                out.emit_client_log_message(m2)
-                out.emit(_BATCHES[i])
-                wire._flush_collector(cur, out, None, shm=None)  # type: ignore[arg-type]
-                expected.append(("log", m))
-                expected.append(("log", m2))
-                expected.append(("data", i))
-        # the main output stream is always opened before a call returns
-        if cur is None:
+    expected: list = []
+    for i in range(n):
+        op = ops[i]
+        if op == _LOG:
+            m = _msg(i, "sink")
+            expected.append(("log", m))
+            call(sink, m)
+        elif op == _OPEN:
+            if cur is not None:
+                cur.close()
+                call(sink.reset)
             cur = w.new_writer()
-            sink.flush_contents(cur, _SCHEMA)  # type: ignore[arg-type]
+            call(sink.flush_contents, cur, _SCHEMA)
+        elif op == _CLOSE:
+            if cur is not None:
+                cur.close()
+                cur = None
+                call(sink.reset)
+        else:
+            # one process() turn: two logs through the collector, then the data batch, flushed
+            if cur is None:
+                cur = w.new_writer()
+                call(sink.flush_contents, cur, _SCHEMA)
+            out = call(ty.OutputCollector, _SCHEMA, server_id="srv")
+            m = _msg(i, "collector")
+            m2 = _msg(i, "collector-2")
+            expected.append(("log", m))
+            expected.append(("log", m2))
+            expected.append(("data", i))
+            call(out.emit_client_log_message, m)
+            call(out.emit_client_log_message, m2)
+            call(out.emit, _BATCHES[i])
+            call(wire._flush_collector, cur, out, None, shm=None)
+    # the main output stream is always opened before a call returns
+    if cur is None:
+        cur = w.new_writer()
+        call(sink.flush_contents, cur, _SCHEMA)
+    cur.close()
+    return expected
+
+
+def _judge_delivery(expected: list, seen: list) -> str | None:
+    """C08 on one call: ``seen`` = what the client observed, ("log", Message) | ("data", batch), in order.
+
+    Every emitted message exactly once and in emission order, level / text / extra fields preserved
+    (the framework may add fields of its own, e.g. server_id), each before the batch it precedes."""
+    want_logs = [m for kind, m in expected if kind == "log"]
+    got_logs = [m for kind, m in seen if kind == "log"]
+    if len(got_logs) != len(want_logs):
+        return "%d log messages emitted, %d delivered" % (len(want_logs), len(got_logs))
+    for want, got in zip(want_logs, got_logs):
+        if got.level is not want.level or got.message != want.message:
+            return "emitted %r, delivered in its place %r" % (want, got)
+        gx = got.extra or {}
+        for key, val in (want.extra or {}).items():
+            if key not in gx or gx[key] != val:
+                return "emitted %r, delivered with extra %r" % (want, gx)
+    want_data = [i for kind, i in expected if kind == "data"]
+    got_data = [b for kind, b in seen if kind == "data"]
+    if len(got_data) != len(want_data):
+        return "%d data batches emitted, %d delivered" % (len(want_data), len(got_data))
+    for i, b in zip(want_data, got_data):
+        if not b.equals(_BATCHES[i]):
+            return "data batch %d changed on the way" % i
+    # before the batch it precedes: the k-th log is seen with no more batches before it than at emission
+    def _batches_before_each_log(seq: list) -> list:
+        out, nb = [], 0
+        for kind, _ in seq:
+            if kind == "data":
+                nb += 1
+            else:
+                out.append(nb)
+        return out
+
+    for j, (at_emission, at_delivery) in enumerate(zip(_batches_before_each_log(expected), _batches_before_each_log(seen))):
+        if at_delivery > at_emission:
+            return "log message #%d (%r) was delivered after a batch it precedes" % (j, want_logs[j].message)
+    return None
+
+
+def _sink_script(n: int, ops: tuple) -> bool:
+    w = _Wire()
+    try:
+        expected = _drive_script(n, ops, w)
     except Exception:  # noqa: BLE001
         return False
     # ---- the client side: real classification of every batch, in wire order ----
     seen: list = []
-    got_logs: list = []
-    last_wid = 0
     try:
-        for wid, batch, cm in w.items:
-            if wid < last_wid:
-                return False
-            last_wid = wid
-            before = len(got_logs)
-            consumed = wire._dispatch_log_or_error(batch, cm, got_logs.append)
-            if consumed:
-                if len(got_logs) != before + 1:
-                    return False
-                seen.append(("log", got_logs[-1]))
-            else:
+        for _wid, batch, cm in w.items:
+            if not wire._dispatch_log_or_error(batch, cm, lambda m: seen.append(("log", m))):
                 seen.append(("data", batch))
     except Exception:  # noqa: BLE001
         return False
-    if len(seen) != len(expected):
-        return False
-    for j in range(len(expected)):
-        kind, want = expected[j]
-        gkind, got = seen[j]
-        if kind != gkind:
-            return False
-        if kind == "data":
-            if got is not _BATCHES[want]:
-                return False
-        else:
-            if got.level is not want.level or got.message != want.message:
-                return False
-            if got.extra != {"k": want.extra["k"], "via": want.extra["via"], "server_id": "srv"}:
-                return False
-    return True
+    return _judge_delivery(expected, seen) is None
 
 
-@cond(q=100, t=300, encoded=ENCODED, bound="op scripts of length <= %d over {log, open writer, close writer+reset, process turn}" % _NA,
-      stubs=["ipc writer := recording list shared by the successive writers of a call"])
+def _replay_sink_script(args: dict) -> str | None:
+    """Un-stubbed: the same script with genuine Arrow IPC stream writers; every stream is read back by
+    the real client reader (``_read_batch_with_log_check`` with an on_log callback)."""
+    ops = (args["o0"], args["o1"], args["o2"], args["o3"], args["o4"])
+    w = _RealWire()
+    names = {_LOG: "log", _OPEN: "open", _CLOSE: "close", _TURN: "turn"}
+    shown = [names[o] for o in ops[: args["n"]]]
+    try:
+        expected = _drive_script(args["n"], ops, w, call=_repo_call)
+    except HarnessModelError:
+        raise
+    except Exception as e:  # noqa: BLE001
+        return "script %s: emitting / flushing the client log messages failed with %r" % (shown, e)
+    seen: list = []
+    for buf in w.bufs:
+        rd = ValidatedReader(ipc.open_stream(BytesIO(buf.getvalue())), IpcValidation.FULL)
+        while True:
+            try:
+                ab = wire._read_batch_with_log_check(rd, lambda m: seen.append(("log", m)))
+            except StopIteration:
+                break
+            except Exception as e:  # noqa: BLE001
+                return "script %s: the client failed reading the call's output: %r" % (shown, e)
+            seen.append(("data", ab.batch))
+    problem = _judge_delivery(expected, seen)
+    return None if problem is None else "script %s: %s" % (shown, problem)
+
+
+@cond(q=150, t=400, encoded=ENCODED, bound="op scripts of length <= %d over {log, open writer, close writer+reset, process turn}" % _NA,
+      stubs=["ipc writer := recording list shared by the successive writers of a call (write after close raises ArrowInvalid, as the real writer does)"],
+      replay=_replay_sink_script, signature=lambda a, c: "C08:sink-script:log-lost-duplicated-or-reordered")
 def sink_script(n: int, o0: int, o1: int, o2: int, o3: int, o4: int) -> bool:
     """
     pre: 0 <= n <= _NA
@@ -220,12 +309,37 @@ class _MD:
     def items(self):  # type: ignore[no-untyped-def]
         return list(self._pairs)
 
+    # the other read accessors of a mapping: md[key] / key in md / iteration are the same model
+    def __getitem__(self, key):  # type: ignore[no-untyped-def]
+        for k, v in self._pairs:
+            if k == key:
+                return v
+        raise KeyError(key)
+
+    def __contains__(self, key) -> bool:  # type: ignore[no-untyped-def]
+        return any(k == key for k, _ in self._pairs)
+
+    def keys(self):  # type: ignore[no-untyped-def]
+        return [k for k, _ in self._pairs]
+
+    def __iter__(self):  # type: ignore[no-untyped-def]
+        return iter(self.keys())
+
+    def __len__(self) -> int:
+        return len(self._pairs)
+
     def __getattr__(self, name: str):  # pragma: no cover
         raise HarnessModelError("metadata stub touched through " + name)
 
 
 class _ZeroRowBatch:
     num_rows = 0
+
+    def __len__(self) -> int:
+        return 0
+
+    def __getattr__(self, name: str):  # pragma: no cover
+        raise HarnessModelError("batch stub touched through " + name)
 
 
 _J: dict = {"mode": 0, "value": None, "token": None}
@@ -238,7 +352,7 @@ class _PeerJson:
 
     JSONDecodeError = _real_json.JSONDecodeError
 
-    def loads(self, text):  # type: ignore[no-untyped-def]
+    def loads(self, text, *a, **k):  # type: ignore[no-untyped-def]
         if _J["mode"] == _J_DECODE_ERROR:
             raise _real_json.JSONDecodeError("not json", "", 0)
         if _J["mode"] == _J_RECURSION:
@@ -352,7 +466,7 @@ def _replay_any_json(args: dict) -> str | None:
 
 
 @cond(q=60, t=120, encoded=[wire._dispatch_log_or_error], stubs=[_JSON_STUB, _MD_STUB], replay=_replay_any_json,
-      signature=lambda a, c: "C08:peer-extra:non-object-json",
+      signature=lambda a, c: "C08:peer-extra:non-object-json" if a["k"] <= 4 else "C08:peer-extra:object-with-any-json-values",
       bound="all six levels; log_extra = null | bool | int(-9..99) | str(len<=2) | list(<=1 element) | object(<=2 entries, non-reserved keys), elements/values of the same six kinds (nested containers concrete)")
 def peer_extra_any_json_value(li: int, k: int, ek: int, b: bool, n: int, s: str, nk: int, k1: int) -> bool:
     """
@@ -517,11 +631,14 @@ class _TransparentJson:
 
     JSONDecodeError = _real_json.JSONDecodeError
 
-    def dumps(self, obj):  # type: ignore[no-untyped-def]
+    def dumps(self, obj, *a, **k):  # type: ignore[no-untyped-def]
+        # (formatting options such as default= / separators= do not change the value carried)
         _T["obj"] = obj
         return "J"
 
-    def loads(self, text):  # type: ignore[no-untyped-def]
+    def loads(self, text, *a, **k):  # type: ignore[no-untyped-def]
+        if isinstance(text, (bytes, bytearray)):  # json.loads takes the UTF-8 bytes as well
+            text = bytes(text).decode()
         if text != "J" or _T["obj"] is None:
             raise _real_json.JSONDecodeError("not the token", "", 0)
         return dict(_T["obj"])
@@ -583,11 +700,18 @@ def _replay_roundtrip(args: dict) -> str | None:
     except Exception as e:  # noqa: BLE001
         return "reading back a log emitted by the Python server failed: %r" % e
     want = dict(extra)
-    if args["has_sid"]:
-        want["server_id"] = "srv"
-    if len(logs) != 1 or logs[0].level is not lvl or logs[0].message != args["text"] or (logs[0].extra or {}) != want:
+    # "extra fields preserved": every emitted field arrives unchanged (the framework may add its own, e.g. server_id)
+    if len(logs) != 1 or logs[0].level is not lvl or logs[0].message != args["text"] or not _extras_preserved(want, logs[0].extra):
         return "emitted %r, client callback saw %r" % (m, logs)
     return None
+
+
+def _extras_preserved(want: dict, got) -> bool:  # type: ignore[no-untyped-def]
+    got = got or {}
+    for k, v in want.items():
+        if k not in got or got[k] != v:
+            return False
+    return True
 
 
 _RT_ENCODED = [ty.OutputCollector.client_log, ty.OutputCollector.emit_client_log_message, wire._write_message_batch, Message.add_to_metadata, wire._dispatch_log_or_error]
@@ -624,10 +748,7 @@ def _roundtrip(via_sink: bool, li: int, text: str, has_extra: bool, ki: int, val
     got = logs[0]
     if got.level is not lvl or got.message != text:
         return False
-    want = dict(extra)
-    if has_sid:
-        want["server_id"] = "srv"
-    return (got.extra or {}) == want
+    return _extras_preserved(extra, got.extra)
 
 
 def _replay_rt_text(args: dict) -> str | None:
@@ -708,6 +829,9 @@ class _TurnServer:
     transport_kind = None
     implementation = None
 
+    def __getattr__(self, name: str):  # pragma: no cover
+        raise HarnessModelError("server stub touched through " + name)
+
 
 class _TurnApp:
     _server = _TurnServer()
@@ -718,8 +842,11 @@ class _TurnApp:
     def __init__(self, cap) -> None:  # type: ignore[no-untyped-def]
         self._max_response_bytes = cap
 
+    def __getattr__(self, name: str):  # pragma: no cover
+        raise HarnessModelError("HTTP app stub touched through " + name)
 
-def _stub_mint_cursor(state, state_info, call_id, token_key, auth):  # type: ignore[no-untyped-def]
+
+def _stub_mint_cursor(*a, **k):  # type: ignore[no-untyped-def]
     """Ideal AEAD: an opaque token that (on the next turn) opens to the same state."""
     return b"CURSOR", b"state"
 
